@@ -45,6 +45,9 @@ func (self ValueString) Fields() (map[string]*Value, *VmInterrupt) {
 		}),
 		"repeat": NewValueBuiltinFunction(func(executor Executor, cancelCtx *context.Context, span errors.Span, args ...Value) (*Value, *VmInterrupt) {
 			count := int(args[0].(ValueInt).Inner)
+			if count < 0 {
+				return nil, NewVMThrowInterrupt(span, fmt.Sprintf("cannot repeat a string %d times", count))
+			}
 			return NewValueString(strings.Repeat(self.Inner, count)), nil
 		}),
 		"split": NewValueBuiltinFunction(func(executor Executor, cancelCtx *context.Context, span errors.Span, args ...Value) (*Value, *VmInterrupt) {
@@ -98,7 +101,7 @@ func (self ValueString) Fields() (map[string]*Value, *VmInterrupt) {
 		"substring": NewValueBuiltinFunction(func(executor Executor, cancelCtx *context.Context, span errors.Span, args ...Value) (*Value, *VmInterrupt) {
 			upper := args[0].(ValueInt).Inner
 
-			if upper >= int64(len(self.Inner)) {
+			if upper < 0 || upper > int64(len(self.Inner)) {
 				return nil, NewVMThrowInterrupt(span, "index out of range")
 			}
 
